@@ -1244,6 +1244,28 @@ def t_enum_members():
     return out
 
 
+
+class _RecFile:
+    def __init__(self):
+        self.ops = []
+
+    def write(self, s):
+        self.ops.append(("write", s))
+        return len(s)
+
+    def flush(self):
+        self.ops.append(("flush",))
+
+
+def t_print_to_a_file_is_one_write_per_piece():
+    f = _RecFile()
+    print("a b", file=f)
+    print("x", "y", file=f, flush=True)
+    print("p", "q", sep="", end="", file=f)
+    print(file=f)
+    print("n", 3, sep="-", file=f)
+    return f.ops
+
 def t_dict_views_are_live_sets():
     from itertools import chain
     a = {"x": 1, "y": 2, "z": 3}
